@@ -1463,6 +1463,22 @@ int EGLPNUM_TYPENAME_ILLlib_delrows (
 			ILL_CLEANUP;
 		}
 	}
+	/* a row may be listed only once: all the counts below are reduced by num */
+	ILL_SAFE_MALLOC (rowmark, A->matrows, char);
+	for (i = 0; i < A->matrows; i++)
+	{
+		rowmark[i] = 0;
+	}
+	for (i = 0; i < num; i++)
+	{
+		if (rowmark[dellist[i]])
+		{
+			QSlog("row %d listed twice in EGLPNUM_TYPENAME_ILLlib_delrows", dellist[i]);
+			rval = 1;
+			ILL_CLEANUP;
+		}
+		rowmark[dellist[i]] = 1;
+	}
 
 	if (qslp->rA)
 	{															/* After a delrow call, needs to be updated */
@@ -1478,16 +1494,6 @@ int EGLPNUM_TYPENAME_ILLlib_delrows (
 	val = A->matval;
 	nstruct = qslp->nstruct;
 
-	ILL_SAFE_MALLOC (rowmark, nrows, char);
-
-	for (i = 0; i < nrows; i++)
-	{
-		rowmark[i] = 0;
-	}
-	for (i = 0; i < num; i++)
-	{
-		rowmark[dellist[i]] = 1;
-	}
 
 
 	/* Try to update the basis */
@@ -1721,27 +1727,31 @@ int EGLPNUM_TYPENAME_ILLlib_delcols (
 
 	for (i = 0; i < num; i++)
 	{
-		if (dellist[i] < 0 || dellist[i] >= ncols) {
+		if (dellist[i] < 0 || dellist[i] >= qslp->nstruct) {
 			rval = 1;
 			ILL_CLEANUP;
 		}
 	}
-
-	if (qslp->rA)
-	{															/* After a delcol call, needs to be updated */
-		EGLPNUM_TYPENAME_ILLlp_rows_clear (qslp->rA);
-		ILL_IFFREE(qslp->rA);
-	}
-
 	ILL_SAFE_MALLOC (colmark, ncols, char);
-
 	for (i = 0; i < ncols; i++)
 	{
 		colmark[i] = 0;
 	}
 	for (i = 0; i < num; i++)
 	{
+		if (colmark[qslp->structmap[dellist[i]]])
+		{
+			QSlog("column %d listed twice in EGLPNUM_TYPENAME_ILLlib_delcols", dellist[i]);
+			rval = 1;
+			ILL_CLEANUP;
+		}
 		colmark[qslp->structmap[dellist[i]]] = 1;
+	}
+
+	if (qslp->rA)
+	{															/* After a delcol call, needs to be updated */
+		EGLPNUM_TYPENAME_ILLlp_rows_clear (qslp->rA);
+		ILL_IFFREE(qslp->rA);
 	}
 
 	if (B)
